@@ -13,4 +13,10 @@ func init() {
 		Exhaustive: "lengths 0-6 x parameters 0-8 per helper (Operate: all length pairs 0-4; Operate3: all triples 0-3; Since: all sequences of length <= 7 over 3 letters; Seq: from/to in [-3,6], increments 1-3)",
 		Shards: [2]int{16, 16}, MinEvals: [2]int{100, 100},
 	})
+	reg(&propCfg{
+		ID: "C01", Level: "exploration",
+		Rule: "for each of the 61 indicator Compute methods: default configuration + seeded random admissible configurations (periods 1-12, documented ordering constraints) x series classes (random walks, 2-decimal walks, dyadic, ties, degenerate bars; thorough adds flat, monotone, plateau, spike, limit runs; zero/negative integers for additive indicators) x lengths {2w+3, 60 (,160)}; the real Compute is run on channels and every output position is compared with a slice reference written from the doc comment (window evaluated directly), tolerance 1e-9 x natural scale, ill-conditioned positions exempt. distinct_nontrivial counts distinct (indicator, configuration, class) triples with at least one compared position.",
+		Shards: [2]int{16, 16}, MinEvals: [2]int{1000, 10000},
+		RequirePositive: "cmp:", RequireCount: 61,
+	})
 }
